@@ -59,6 +59,9 @@ type dDoc struct {
 	NErrors  int                 `json:"nerrors"`
 	Fields   map[string][]string `json:"fields"`
 	RelData  map[string][]string `json:"reldata"`
+	// HandDup: the included list, filled by hand, also holds a resource that is primary data (nothing
+	// forbids it; the Include operation is what refuses to build such a list)
+	HandDup bool `json:"handdup"`
 	// Unenc: the primary resource carries a meta value no JSON can hold (an infinite number): the
 	// resource cannot be encoded.  Whatever the library makes of that, the output is well-formed.
 	Unenc bool `json:"unenc"`
@@ -1062,6 +1065,9 @@ func randDoc(rng *rand.Rand) dDoc {
 	switch d.Kind {
 	case "one", "ident":
 		d.Primary = []dRes{randDocRes(rng, "t1", "x")}
+		if rng.Intn(8) == 0 {
+			d.Primary[0].ID = "" // a resource (or an identifier) that was never given an id
+		}
 	case "many", "idents":
 		d.Coll = []string{"resources", "soft", "wrapcol"}[rng.Intn(3)]
 		n := rng.Intn(4)
@@ -1321,7 +1327,17 @@ func docMain(args []string) {
 		if rng.Intn(2) == 0 {
 			v.Shift = 0
 		}
-		if d.Kind == "one" && len(d.Included) > 0 && rng.Intn(6) == 0 {
+		if (d.Kind == "one" || d.Kind == "many") && len(d.Primary) > 0 && d.Primary[0].ID != "" && !d.Primary[0].Extra && rng.Intn(10) == 0 {
+			twin := d.Primary[0]
+			twin.Vals = valMap{}
+			for f, v := range d.Primary[0].Vals {
+				twin.Vals[f] = v
+			}
+			d.Included = append(d.Included, twin)
+			d.HandDup = true
+			stt.class("included-holds-a-primary-resource")
+		}
+		if d.Kind == "one" && len(d.Included) > 0 && !d.HandDup && rng.Intn(6) == 0 {
 			d.Unenc = true
 			stt.class("primary-cannot-be-encoded")
 		}
